@@ -87,6 +87,9 @@ func loadWorld(repo, specDir string) (*World, error) {
 			continue
 		}
 		if fn.Synthetic != "" && fn.Origin() == nil {
+			if fn.Name() == "init" && fn.Parent() == nil && fn.Pkg != nil {
+				w.funcs[fn.Pkg.Pkg.Name()+".init"] = fn
+			}
 			continue
 		}
 		for _, k := range contractKeys(fn) {
@@ -149,7 +152,7 @@ type OblResult struct {
 }
 
 // discharge runs the solvers on all obligations of a verification result.
-func discharge(x *Exec, res *VerifyResult, workDir string, timeoutS int) []*OblResult {
+func discharge(x *Exec, res *VerifyResult, workDir string, timeoutS int, noRetry map[string]bool) []*OblResult {
 	out := make([]*OblResult, len(res.Obligations))
 	var wg sync.WaitGroup
 	sem := make(chan struct{}, 6)
@@ -170,6 +173,15 @@ func discharge(x *Exec, res *VerifyResult, workDir string, timeoutS int) []*OblR
 		}(r)
 	}
 	wg.Wait()
+	// second chance for obligations that timed out or came back unknown under load: one at a
+	// time, with a three times larger budget (a slow proof must not turn into an alarm)
+	for _, r := range out {
+		if r.Ans != nil && !noRetry[r.O.Name] && (r.Ans.Status == "timeout" || r.Ans.Status == "unknown" || r.Ans.Status == "error") {
+			first := r.Ans
+			r.Ans = runSolvers(r.Script, workDir, r.O.Name+"#retry", timeoutS*3, nil)
+			r.Ans.Time += first.Time
+		}
+	}
 	return out
 }
 
@@ -225,8 +237,10 @@ func cmdVerify(args []string) {
 		fmt.Fprintln(os.Stderr, err)
 		os.Exit(2)
 	}
+	os.RemoveAll(*work)
 	for _, name := range strings.Split(*fn, ",") {
 		f := w.funcs[name]
+
 		if f == nil {
 			fmt.Fprintf(os.Stderr, "no function %s\n", name)
 			os.Exit(2)
@@ -242,7 +256,7 @@ func cmdVerify(args []string) {
 		if res.Err != nil {
 			fmt.Printf("   ERROR: %v\n", res.Err)
 		}
-		rs := discharge(x, res, *work, *timeout)
+		rs := discharge(x, res, *work, *timeout, nil)
 		for _, r := range rs {
 			fmt.Printf("   %-8s %-8s %6.2fs  %s\n", r.Ans.Status, r.Ans.Solver, r.Ans.Time, r.O.Name)
 			if r.Ans.Status != "unsat" && *dump {
